@@ -38,6 +38,51 @@ type SimKV struct {
 	Blackhole bool
 	// Reads counts Get/Has/iterator creations, a cheap reach probe for "went to disk".
 	Reads uint64
+	// slow-disk fault: while stalled, every write blocks (reads go on) until Release
+	gateMu  sync.Mutex
+	gate    chan struct{}
+	waiting int
+}
+
+// Stall makes every subsequent write block until Release (a slow or stalled disk).
+func (s *SimKV) Stall() {
+	s.gateMu.Lock()
+	if s.gate == nil {
+		s.gate = make(chan struct{})
+	}
+	s.gateMu.Unlock()
+}
+
+// Release lets the blocked writes through.
+func (s *SimKV) Release() {
+	s.gateMu.Lock()
+	if s.gate != nil {
+		close(s.gate)
+		s.gate = nil
+	}
+	s.gateMu.Unlock()
+}
+
+// StalledWriters is the number of writers currently blocked by Stall.
+func (s *SimKV) StalledWriters() int {
+	s.gateMu.Lock()
+	defer s.gateMu.Unlock()
+	return s.waiting
+}
+
+func (s *SimKV) passGate() {
+	s.gateMu.Lock()
+	g := s.gate
+	if g == nil {
+		s.gateMu.Unlock()
+		return
+	}
+	s.waiting++
+	s.gateMu.Unlock()
+	<-g
+	s.gateMu.Lock()
+	s.waiting--
+	s.gateMu.Unlock()
 }
 
 var _ storage.Storage = (*SimKV)(nil)
@@ -67,6 +112,7 @@ func (s *SimKV) apply(b KVBatch) {
 }
 
 func (s *SimKV) write(b KVBatch) {
+	s.passGate()
 	s.mu.Lock()
 	defer s.mu.Unlock()
 	if s.Blackhole {
